@@ -418,7 +418,10 @@ class LogExpBounded:
                 return
             errs.append((w - ref).abs().max().item())
         K.env["bch_errs"] = str([round(e / (2 / n), 5) for e in errs])
-        K.ensure("bch-order", E.bconst(max(errs[1:]) <= errs[0] * 1.5 + 1e-7), text="C13: BCH error does not grow with the truncation order: " + K.env["bch_errs"])
+        # the reference itself (logv of a composition, fixed-point iteration on a 32x32 grid) is only accurate to about 0.01
+        # samples (cf. log-exp above): differences below that floor say nothing about the truncation order
+        floor = 0.01 * (2 / n)
+        K.ensure("bch-order", E.bconst(max(errs[1:]) <= errs[0] * 1.5 + floor), text="C13: BCH error does not grow with the truncation order (in samples, floor 0.01): " + K.env["bch_errs"])
 
 
 @register
